@@ -35,10 +35,10 @@ def cost_2(S, T, M, N, i, j):
     return ite(mkbool(ci), ite(mkbool(cj), a, b), ite(mkbool(cj), c, 0.0))
 
 
-def wasserstein_contract(want_matching):
+def wasserstein_contract(want_matching, dtype="float"):
     def make_args(eng):
-        d1, n1 = sym_input(eng, "dgm1")
-        d2, n2 = sym_input(eng, "dgm2")
+        d1, n1 = sym_input(eng, "dgm1", dtype)
+        d2, n2 = sym_input(eng, "dgm2", dtype)
         return {"dgm1": d1, "dgm2": d2, "matching": want_matching}, {"n1": n1, "n2": n2}
 
     cut_filter = make_cut_filter()
@@ -117,11 +117,11 @@ def wasserstein_contract(want_matching):
         return out
 
     return Contract(MOD, "wasserstein", make_args, requires=input_requires, ensures=ensures, definedness="P",
-                    variant="matching=%s" % want_matching,
+                    variant="matching=%s%s" % (want_matching, "" if dtype == "float" else ",dtype=" + dtype),
                     cuts=[("DUL = ", cut_filter),
                           ("matchi, matchj = optimize.linear_sum_assignment(D)", cut_matrix)],
                     hints=[("DUL = ", hint_capture)])
 
 
 def all_contracts(tier):
-    return [wasserstein_contract(False), wasserstein_contract(True)], {}
+    return [wasserstein_contract(False), wasserstein_contract(True), wasserstein_contract(False, "int"), wasserstein_contract(True, "int")], {}
